@@ -291,10 +291,10 @@ func runC06Proto(w *W) {
 				v := pgeneric.NewRootValue(desc, b)
 				for _, f := range sch.Root().Fields {
 					g := v.GetByPath(pgeneric.NewPathFieldId(proto.FieldNumber(f.Num)))
-					if g.IsError() {
-						continue
+					// the multi-step lookups below run also when the single step failed: they parse the field on their own
+					if !g.IsError() {
+						g.Raw()
 					}
-					g.Raw()
 					switch f.Card {
 					case cRepeated:
 						v.GetByPath(pgeneric.NewPathFieldId(proto.FieldNumber(f.Num)), pgeneric.NewPathIndex(1))
